@@ -94,7 +94,7 @@ def inDomain : TraitType → Val → Bool
   | .tupleAny, w => Val.isInst .tuple w
   -- Instance: "an instance of a class or its subclasses", allow_none, adapt
   | .instance cls an mode dflt, w =>
-    (an && w.isNone) || Val.isInst cls w || (decide (mode ≥ 1) && E.provides w cls)
+    (an && w.isNone) || (!w.isNone && Val.isInst cls w) || (decide (mode ≥ 1) && E.provides w cls)
       || (decide (mode ≥ 2) && w == dflt)
   -- Type: "a subclass of a specified class", allow_none
   | .type_ cls an, w => (an && w.isNone) || isSubclass w cls == some true
@@ -133,7 +133,7 @@ def inDomain : TraitType → Val → Bool
   | .coerceH ty, w => Val.isInst ty w
   -- TraitCastType: "its value is of the type associated with the TraitCastType instance"
   | .castH ty, w => Val.exactTy ty w
-  | .instanceH cls an, w => (an && w.isNone) || Val.isInst cls w
+  | .instanceH cls an, w => (an && w.isNone) || (!w.isNone && Val.isInst cls w)
   | .functionH f, w => E.fnRange f w
   | .enumH vals, w => isMember vals w
   | .mapH keys _, w => isKey keys w
